@@ -31,6 +31,8 @@ pub struct RecvRun {
     pub ctx: Ctx,
     /// receiver wall-clock offset relative to true time, in microseconds
     pub offset_us: i64,
+    /// the wall clock handed to flute stands still at this instant (the monotonic clock still advances)
+    pub freeze_wall: Option<u64>,
     pub pushes: u64,
     pub push_errs: u64,
     pub label: String,
@@ -55,6 +57,7 @@ impl RecvRun {
             sess_events: ev,
             ctx: ctx.clone(),
             offset_us: 0,
+            freeze_wall: None,
             pushes: 0,
             push_errs: 0,
             label: label.to_string(),
@@ -66,6 +69,7 @@ impl RecvRun {
     }
 
     pub fn wall(&self, t_us: u64) -> std::time::SystemTime {
+        let t_us = self.freeze_wall.unwrap_or(t_us);
         systime_us((t_us as i128 + self.offset_us as i128).max(0) as u64)
     }
 
